@@ -684,7 +684,7 @@ theorem date_cell_token_cut (T : Tables) (hT : TablesOk T) (spec : Spec) (sps : 
 `strptime`. -/
 theorem date_cell_token_whole (T : Tables) (hT : TablesOk T) (spec : Spec) (sps : List Spell) (t : DateTime) (pre post : Str)
     (hf : FmtOk spec.dateFormat = true) (he : FmtEdgesOk spec.dateFormat = true)
-    (hblank : spec.dateFormat.contains ' ' = true) (hv : t.valid = true)
+    (hblank : spec.dateFormat.any isPySpace = true) (hv : t.valid = true)
     (hs : SpellsOk T sps spec.dateFormat t = true) (hpre : pre.all isPySpace = true) (hpost : post.all isPySpace = true) :
     dateToken spec (strip (pre ++ strftimeWith sps spec.dateFormat t ++ post)) = some (strftimeWith sps spec.dateFormat t) := by
   unfold FmtOk at hf; unfold FmtEdgesOk at he; unfold SpellsOk at hs
@@ -740,7 +740,7 @@ theorem row_carries_written_date (T : Tables) (hT : TablesOk T) (pf : Str → Op
 theorem row_carries_written_date_blank (T : Tables) (hT : TablesOk T) (pf : Str → Option F64) (cfg : Cfg) (row : List Str)
     (sps : List Spell) (t : DateTime) (pre post desc : Str) (caps : List (Str × Str)) (q : F64)
     (hf : FmtOk cfg.spec.dateFormat = true) (he : FmtEdgesOk cfg.spec.dateFormat = true)
-    (hblank : cfg.spec.dateFormat.contains ' ' = true) (hv : t.valid = true) (hy : YearFits cfg.spec.dateFormat t = true)
+    (hblank : cfg.spec.dateFormat.any isPySpace = true) (hv : t.valid = true) (hy : YearFits cfg.spec.dateFormat t = true)
     (hs : SpellsOk T sps cfg.spec.dateFormat t = true) (hlen : maxCol cfg.spec < row.length)
     (hcell : row.getD cfg.spec.dateCol [] = pre ++ strftimeWith sps cfg.spec.dateFormat t ++ post)
     (hpre : pre.all isPySpace = true) (hpost : post.all isPySpace = true)
